@@ -160,6 +160,9 @@ class PreconditionsParser:
 
             else:
                 self.logger.error(f"Unknown precondition node: {precondition_node}")
-                return None
+                raise SyntaxError(
+                    f"Unsupported precondition - {precondition_node}! "
+                    f"Ignoring it would change the meaning of the condition."
+                )
 
         return precondition_root
